@@ -47,7 +47,10 @@ ScriptsC42 == {
 
 ScriptsAll == ScriptsThorough \cup ScriptsC42
 
-ScriptsG1 == ScriptsQuick \cup ScriptsC40
+ScriptsG1 == ScriptsQuick \cup ScriptsC40 \cup {
+  <<Add, Add, Rm(0), Rm(1)>>,        \* two removals: a context set up between them
+  <<Add, Add, RmIf({0}), Clear>>
+}
 ScriptsTwo == {<<Add, Add, Rm(0)>>, <<Add, Clear, Add>>}
 
 ScriptsBump == {<<Add, Rm(0)>>}
